@@ -507,11 +507,16 @@ def build_code(spec, resolvers=None, order=None):
         if k == "scalar":
             from py_gql.schema.scalars import default_scalar
             built[n] = default_scalar(n, description=t.get("desc"))
+            if len(n) % 2 == 0 or t.get("null_on") is not None:
+                # user code commonly subclasses the type classes (class Money(ScalarType)): same behaviour, another class
+                proto = built[n]
+                built[n] = type("Custom" + n, (S.ScalarType,), {})(n, serialize=proto._serialize, parse=proto._parse,
+                                                                     parse_literal=proto._parse_literal, description=t.get("desc"))
             if t.get("null_on") is not None:
                 # a custom scalar may serialise a value to null (code-built schemas only): null completion rules apply
                 built[n]._serialize = (lambda v, bad=t["null_on"]: None if v == bad else v)
         elif k == "enum":
-            built[n] = S.EnumType(n, [S.EnumValue(v["name"], v["value"], description=v.get("desc"),
+            built[n] = (type("Custom" + n, (S.EnumType,), {}) if n.endswith("1") else S.EnumType)(n, [S.EnumValue(v["name"], v["value"], description=v.get("desc"),
                                                   deprecation_reason=depr_reason(v.get("deprecated")))
                                       for v in t["values"]], description=t.get("desc"))
     for n, t in spec["types"].items():
